@@ -48,7 +48,7 @@ struct Env
   V_<int>& v_int; V_<bool>& v_bool; V_<unsigned char>& v_uchar; V_<long>& v_long; V_<unsigned long long>& v_ullong;
   V_<En>& v_enum; V_<float>& v_float; V_<double>& v_double;
   V_<int*>& v_pint; V_<const char*>& v_pcchar; V_<int**>& v_ppint; V_<void*>& v_pvoid; V_<Fn>& v_fn; V_<Fn2>& v_fn2;
-  V_<int[4]>& v_arr; V_<St>& v_st; V_<St*>& v_pst; V_<int*[2]>& v_parr;
+  V_<int[4]>& v_arr; V_<St>& v_st; V_<St*>& v_pst; V_<int*[2]>& v_parr; V_<Fn[2]>& v_fnarr; T_<Fn2[2]>& t_fn2arr; T_<Fn[2]>& t_fnarr; T_<char*[2]>& t_pchararr; T_<int*[2]>& t_parr;
   O_<int>& o_int; O_<int*>& o_pint;
   rlbox::sandbox_callback<Fn, S>& cb; rlbox::sandbox_callback<Fn2, S>& cb2;
   rlbox::app_pointer<int*, S>& ap;
@@ -77,6 +77,9 @@ int* cbf_rawptr_ret(SB&);
 void cbf_arr_param(SB&, T_<int[4]>);
 T_<int> cbf_vol_param(SB&, V_<int>&);
 T_<int> cbf_othersbx_param(SB&, rlbox::tainted<int, S2>);
+T_<int> cbf_othersbx_opaque_param(SB&, rlbox::tainted_opaque<int, S2>);
+rlbox::tainted_opaque<int, S2> cbf_othersbx_opaque_ret(SB&);
+rlbox::tainted<int, S2> cbf_othersbx_ret(SB&);
 
 #ifdef M2_CLASSIFY
 // ---- phase 2: classification of the type of an accepted expression ----
